@@ -197,6 +197,9 @@ namespace vh {
   }
   inline void sink_event(const char *k, const void *, std::string_view n, long a, long b, long c, std::string_view m) {
     if (!sink().on.load(std::memory_order_relaxed)) { return; }
+    // this sink serves the scope-machine trace specification (EvalStackTrace.tla); lock and shared-table events
+    // (hooks H3/H4: acq rel acc reg use? use! use=) belong to ThreadsTrace.tla and its own driver
+    if ((k[0] == 'a' && k[1] == 'c') || k[0] == 'r' || k[0] == 'u') { return; }
     sink_write(k, n, a, b, c, m);
   }
   inline void sink_open(const std::string &path) {
